@@ -59,6 +59,13 @@ pub fn build_mem_readded(s: &RShard, mode: u8) -> MDBInMemoryShard {
             let mut y = x.clone();
             y.chunks.pop();
             m.add_cas_block(to_real_xorb(&y)).expect("add_cas_block");
+        } else if mode == 3 {
+            // a LARGER record first (one more chunk), then the real one replaces it
+            let mut y = x.clone();
+            if let Some(c) = y.chunks.last().cloned() {
+                y.chunks.push(c);
+            }
+            m.add_cas_block(to_real_xorb(&y)).expect("add_cas_block");
         } else {
             m.add_cas_block(to_real_xorb(x)).expect("add_cas_block");
         }
@@ -71,6 +78,14 @@ pub fn build_mem_readded(s: &RShard, mode: u8) -> MDBInMemoryShard {
             g.verif = None;
             g.sha = None;
             m.add_file_reconstruction_info(to_real_file(&g)).expect("add_file_reconstruction_info");
+        } else if mode == 3 {
+            // a LARGER record first (one more segment, both extensions), then the real one replaces it
+            let mut g = f.clone();
+            let extra = g.segs.last().cloned().unwrap_or(RSeg { cas: f.hash, flags: 0, bytes: 1, start: 0, end: 1 });
+            g.segs.push(extra);
+            g.verif = Some(vec![f.hash; g.segs.len()]);
+            g.sha = Some(f.hash);
+            m.add_file_reconstruction_info(to_real_file(&g)).expect("add_file_reconstruction_info");
         } else {
             m.add_file_reconstruction_info(to_real_file(f)).expect("add_file_reconstruction_info");
         }
@@ -82,7 +97,7 @@ pub fn build_mem_readded(s: &RShard, mode: u8) -> MDBInMemoryShard {
 /// A shard whose records were added more than once serializes like the plain one and accounts for its size.
 pub fn check_readded(want: &RShard, plain_bytes: &[u8]) -> Vec<Fail> {
     let mut v = vec![];
-    for mode in [1u8, 2] {
+    for mode in [1u8, 2, 3] {
         let m = build_mem_readded(want, mode);
         match serialize_mem(&m) {
             Ok((b, _)) => {
